@@ -26,7 +26,7 @@ import json
 from pathlib import Path
 
 from ..absint import Interp, Raised, Record, Unsupported, _Return
-from ..astx import attr_writes, call_name, dotted, enclosing_stmt, expand, facts_at, has_fact, kwarg, last, reaching_def
+from ..astx import atoms, attr_writes, call_name, dotted, enclosing_stmt, expand, facts_at, has_fact, kwarg, last, reaching_def
 from ..cfg import CFG
 from ..index import AnchorError, FuncNode, enclosing_class, enclosing_function, parent, qualname_of
 from ..selftest import Twin
@@ -40,7 +40,8 @@ EXPLANATION = (
     "the characters the payload writer leaves unescaped must contain no character that the client's line source treats as a line boundary; "
     "and the client's parser AST is interpreted (no repo code is run) on frames instantiated from the server template for 3 event logs x every single "
     "drop position x representative double drops: the hand-over must be each later event exactly once, in order, each with its own sequence. "
-    "R2 cursor: the `after_sequence` request parameter is the loop-carried cursor itself (no arithmetic), assigned inside the line loop only from the parsed id and "
+    "Which field a statement of the line loop handles is read from path facts (the prefix test known true there), so if/elif arms and `continue` guards over literal or module-constant prefixes read alike. "
+    "R2 cursor: the `after_sequence` request parameter is the loop-carried cursor itself (no arithmetic), assigned inside the line loop only from the parsed id (through temporaries of the loop, or kept) and "
     "on every path handed over (queue.put of an item carrying that cursor) before the next line is read; EventStream writes its published sequence from "
     "the queued item on every path from queue.get to yield and has no other writer. "
     "R3 budget: the first handler that covers a mid-stream transport error reconnects; its body, interpreted for max_reconnect_attempts 0..3, tolerates "
@@ -232,33 +233,73 @@ def _bind_client(repo) -> _Client:
             v = s.value
             if isinstance(v, ast.Call) and isinstance(v.func, ast.Attribute) and v.func.attr in ("strip", "rstrip", "lstrip") and dotted(v.func.value) in c.aliases:
                 c.aliases.add(s.targets[0].id)
-    # prefix tests
-    c.prefix_tests = []  # (prefix, If node, base name)
-    for n in ast.walk(loop):
-        if isinstance(n, ast.If):
-            for t in ast.walk(n.test):
-                if isinstance(t, ast.Call) and isinstance(t.func, ast.Attribute) and t.func.attr == "startswith" and dotted(t.func.value) in c.aliases and len(t.args) == 1 and isinstance(t.args[0], ast.Constant) and isinstance(t.args[0].value, str):
-                    c.prefix_tests.append((t.args[0].value, n, dotted(t.func.value)))
-    # enqueue of an event: <q>.put(<Cls>(sequence=..., event=...))
+    # prefix tests: <alias>.startswith(<string literal or module-level string constant>) anywhere in the line loop
+    c.prefix_tests = []  # (prefix, startswith call, base name)
+    c.prefix_atoms = {}  # normalised atom text of the test -> prefix
+    for t in ast.walk(loop):
+        if isinstance(t, ast.Call) and isinstance(t.func, ast.Attribute) and t.func.attr == "startswith" and dotted(t.func.value) in c.aliases and len(t.args) == 1:
+            pv = _const_str(c, t.args[0])
+            if pv is not None:
+                c.prefix_tests.append((pv, t, dotted(t.func.value)))
+                c.prefix_atoms[atoms(t, True)[0][0]] = pv
+    c.cfg = CFG(c.reader)
+    c.branch_cache = {}
+    # enqueue of an event: <q>.put(<Cls>(sequence=..., event=...)); the item may be built into a local first
     c.puts = []
+    c.items = {}  # id(put call) -> the item constructor call
     for n in ast.walk(loop):
-        if isinstance(n, ast.Call) and isinstance(n.func, ast.Attribute) and n.func.attr in ("put", "put_nowait") and n.args and isinstance(n.args[0], ast.Call) and kwarg(n.args[0], "sequence") is not None:
-            c.puts.append(n)
+        if isinstance(n, ast.Call) and isinstance(n.func, ast.Attribute) and n.func.attr in ("put", "put_nowait") and n.args:
+            item = n.args[0]
+            if isinstance(item, ast.Name):
+                item = reaching_def(item.id, n)
+            if isinstance(item, ast.Call) and kwarg(item, "sequence") is not None:
+                c.puts.append(n)
+                c.items[id(n)] = item
     if not c.puts:
         raise AnchorError("C17.R2: no `<queue>.put(<Item>(sequence=…, …))` inside the line loop")
-    c.event_cls = call_name(c.puts[0].args[0])
+    c.event_cls = call_name(c.items[id(c.puts[0])])
     c.queue = dotted(c.puts[0].func.value)
     return c
 
 
+def _module_consts(m) -> dict[str, object]:
+    """Module-level names bound exactly once to a str/int literal."""
+    seen: dict[str, list] = {}
+    for st in m.tree.body:
+        tg = st.targets if isinstance(st, ast.Assign) else [st.target] if isinstance(st, ast.AnnAssign) and st.value is not None else []
+        for t in tg:
+            if isinstance(t, ast.Name):
+                seen.setdefault(t.id, []).append(st.value)
+    return {k: v[0].value for k, v in seen.items() if len(v) == 1 and isinstance(v[0], ast.Constant) and isinstance(v[0].value, (str, int)) and not isinstance(v[0].value, bool)}
+
+
+def _const_str(c: _Client, e: ast.AST) -> str | None:
+    """A string literal, or a module-level string constant that the enclosing functions do not rebind."""
+    if isinstance(e, ast.Constant) and isinstance(e.value, str):
+        return e.value
+    if isinstance(e, ast.Name):
+        if not hasattr(c, "consts"):
+            c.consts = _module_consts(c.m)
+            c.local_names = {n.id for n in ast.walk(c.gwe) if isinstance(n, ast.Name) and isinstance(n.ctx, ast.Store)} | {a.arg for f in ast.walk(c.gwe) if isinstance(f, FuncNode) for a in f.args.args + f.args.kwonlyargs}
+        v = c.consts.get(e.id)
+        if isinstance(v, str) and e.id not in c.local_names:
+            return v
+    return None
+
+
 def _branch_of(c: _Client, node: ast.AST) -> str | None:
-    """Prefix of the innermost prefix-test branch (body) that contains node."""
-    best = None
-    for prefix, ifn, _b in c.prefix_tests:
-        if any(x is node for s in ifn.body for x in ast.walk(s)):
-            if best is None or any(x is ifn for x in ast.walk(best[1])):
-                best = (prefix, ifn)
-    return best[0] if best else None
+    """The field prefix the current line is known to start with where `node` executes: path facts (dominating branch
+    edges of the reader's CFG, so `if p: …`, `elif`, `if not p: continue` and a local holding the test all read alike).
+    When several prefix tests are known true the longest (most specific) prefix is the branch."""
+    st = node if isinstance(node, ast.stmt) else enclosing_stmt(node)
+    if id(st) not in c.branch_cache:
+        ns = c.cfg.nodes_of(st)
+        known = None
+        for n in ns:
+            f = {c.prefix_atoms[t] for t, pol in facts_at(c.cfg, n) if pol and t in c.prefix_atoms}
+            known = f if known is None else known & f
+        c.branch_cache[id(st)] = max(known, key=len) if known else None
+    return c.branch_cache[id(st)]
 
 
 # ============================================================================ binding: server
@@ -375,7 +416,7 @@ def _simulate(c: _Client, frames_fn, events: list[tuple[int, str]], cursor0: int
         c.sim_body = _strip(c.stream_with.body)
     body = c.sim_body
     delivered: list[Record] = []
-    env: dict = {c.queue: Record("Queue"), "httpx": Record("httpx"), "asyncio": Record("asyncio")}
+    env: dict = {**_module_consts(c.m), c.queue: Record("Queue"), "httpx": Record("httpx"), "asyncio": Record("asyncio")}
     # parameters of get_workflow_events, then the reader's straight-line prologue (cursor initialisation …)
     a = c.gwe.args
     for p in a.args + a.kwonlyargs:
@@ -462,9 +503,8 @@ def run(chk) -> None:
     chk.floor("C17.R1", "field prefixes the client's line classifier tests", len(roles), 2)
     # which prefix is the id field / the data field (by what the branch does)
     id_prefix = data_prefix = None
-    for prefix, ifn, _b in c.prefix_tests:
-        if any(any(x is p for x in ast.walk(st)) for p in c.puts for st in ifn.body):
-            data_prefix = prefix
+    for p in c.puts:
+        data_prefix = _branch_of(c, p) or data_prefix
     if data_prefix is None:
         raise AnchorError("C17.R1: no prefix branch of the line classifier hands an event over")
     # cursor variable (needed to find the id variable)
@@ -472,22 +512,27 @@ def run(chk) -> None:
     if len(cur_names) != 1:
         raise AnchorError(f"C17.R2: cannot identify the cursor in `{ast.unparse(c.after_expr)}`")
     V = next(iter(cur_names))
-    seq_kw = kwarg(c.puts[0].args[0], "sequence")
+    seq_kw = kwarg(c.items[id(c.puts[0])], "sequence")
     cursor_assigns_in_loop = [a for a in ast.walk(c.loop) if isinstance(a, (ast.Assign, ast.AnnAssign)) and any(isinstance(t, ast.Name) and t.id == V for t in (a.targets if isinstance(a, ast.Assign) else [a.target]))]
-    # the variable holding the parsed id: what the queued item's sequence is computed from (one assignment deep)
+    # the variable holding the parsed id: what the queued item's sequence is computed from (through locals of the loop,
+    # stopping at the line itself)
+    loop_assigns = [a for a in ast.walk(c.loop) if isinstance(a, (ast.Assign, ast.AnnAssign)) and a.value is not None]
     seq_src = _name_set(seq_kw) - {"int", "str"}
-    for a in ast.walk(c.loop):
-        if isinstance(a, (ast.Assign, ast.AnnAssign)) and a.value is not None and any(isinstance(t, ast.Name) and t.id in seq_src for t in (a.targets if isinstance(a, ast.Assign) else [a.target])):
-            seq_src = seq_src | (_name_set(a.value) - {"int", "str"})
+    grew = True
+    while grew:
+        grew = False
+        for a in loop_assigns:
+            if any(isinstance(t, ast.Name) and t.id in seq_src and t.id not in c.aliases for t in (a.targets if isinstance(a, ast.Assign) else [a.target])):
+                more = (_name_set(a.value) - {"int", "str"}) - seq_src
+                if more:
+                    seq_src, grew = seq_src | more, True
     id_vars = set()
-    for prefix, ifn, _b in c.prefix_tests:
-        if prefix == data_prefix:
-            continue
-        for st in ifn.body:
-            for a in ast.walk(st):
-                if isinstance(a, ast.Assign) and any(isinstance(t, ast.Name) and t.id in seq_src for t in a.targets) and _name_set(a.value) & c.aliases:
-                    id_prefix = prefix
-                    id_vars |= {t.id for t in a.targets if isinstance(t, ast.Name)}
+    for a in loop_assigns:
+        if isinstance(a, ast.Assign) and any(isinstance(t, ast.Name) and t.id in seq_src for t in a.targets) and _name_set(a.value) & c.aliases:
+            br = _branch_of(c, a)
+            if br is not None and br != data_prefix:
+                id_prefix = br
+                id_vars |= {t.id for t in a.targets if isinstance(t, ast.Name)}
     if id_prefix is None:
         # the sequence may be parsed directly in the data branch from a remembered line … not an idiom we know
         chk.ob("C17.R1", "the client has a branch that records the id field of a frame", False, m=m, node=c.loop, fn=c.reader, instance="id-branch",
@@ -496,21 +541,24 @@ def run(chk) -> None:
 
     # (a) slice offsets equal the tested prefix
     nslices = 0
-    for prefix, ifn, base in c.prefix_tests:
-        for st in ifn.body:
-            for sub in ast.walk(st):
-                if isinstance(sub, ast.Subscript) and dotted(sub.value) in c.aliases and isinstance(sub.slice, ast.Slice) and _branch_of(c, sub) == prefix:
-                    lo = sub.slice.lower
-                    val = None
-                    if isinstance(lo, ast.Constant) and isinstance(lo.value, int):
-                        val = lo.value
-                    elif isinstance(lo, ast.Call) and call_name(lo) == "len" and len(lo.args) == 1 and isinstance(lo.args[0], ast.Constant) and isinstance(lo.args[0].value, str):
-                        val = len(lo.args[0].value)
-                    if val is None or sub.slice.upper is not None:
-                        raise AnchorError(f"C17.R1: slice `{ast.unparse(sub)}` in the `{prefix}` branch is not a constant prefix cut")
-                    nslices += 1
-                    chk.ob("C17.R1", f"the `{prefix}` branch cuts exactly the prefix it tested (`{ast.unparse(sub)}`, len({prefix!r}) = {len(prefix)})", val == len(prefix),
-                           m=m, node=sub, fn=c.reader, instance=f"slice:{prefix}", reason=f"offset {val} != {len(prefix)}: the value keeps or loses characters, so the id does not parse / the payload is damaged")
+    for sub in ast.walk(c.loop):
+        if isinstance(sub, ast.Subscript) and dotted(sub.value) in c.aliases and isinstance(sub.slice, ast.Slice):
+            prefix = _branch_of(c, sub)
+            if prefix is None:
+                continue
+            lo = sub.slice.lower
+            val = None
+            if isinstance(lo, ast.Constant) and isinstance(lo.value, int):
+                val = lo.value
+            elif isinstance(lo, ast.Name) and _const_str(c, lo) is None and isinstance(c.consts.get(lo.id), int) and lo.id not in c.local_names:
+                val = c.consts[lo.id]
+            elif isinstance(lo, ast.Call) and call_name(lo) == "len" and len(lo.args) == 1 and _const_str(c, lo.args[0]) is not None:
+                val = len(_const_str(c, lo.args[0]))
+            if val is None or sub.slice.upper is not None:
+                raise AnchorError(f"C17.R1: slice `{ast.unparse(sub)}` in the `{prefix}` branch is not a constant prefix cut")
+            nslices += 1
+            chk.ob("C17.R1", f"the `{prefix}` branch cuts exactly the prefix it tested (`{ast.unparse(sub)}`, len({prefix!r}) = {len(prefix)})", val == len(prefix),
+                   m=m, node=sub, fn=c.reader, instance=f"slice:{prefix}", reason=f"offset {val} != {len(prefix)}: the value keeps or loses characters, so the id does not parse / the payload is damaged")
     chk.extra["prefix_slices"] = nslices
 
     # (b) classify server lines with the client's own prefixes
@@ -695,33 +743,57 @@ def run(chk) -> None:
         inside_retry = any(x is a for x in ast.walk(retry_loop))
         chk.ob("C17.R2", f"outside the line loop the cursor is only initialised before the retry loop (`{ast.unparse(a)[:60]}`)", not inside_retry and not isinstance(a, ast.AugAssign), m=m, node=a, fn=c.reader,
                instance="cursor-init", reason="the cursor is rewritten on every reconnect")
-    cfg = CFG(c.reader)
+    cfg = c.cfg
     iter_nodes = cfg.nodes_of(c.loop)
     put_nodes = []
     good_puts = 0
     for p in c.puts:
-        sk = kwarg(p.args[0], "sequence")
+        item = c.items[id(p)]
+        sk = kwarg(item, "sequence")
         st = enclosing_stmt(p)
         uses_cursor = isinstance(sk, ast.Name) and sk.id == V
         if not uses_cursor and sk is not None:
             # same expression as the value the cursor was just given
             uses_cursor = any(ast.dump(sk) == ast.dump(a.value) for a in cursor_assigns_in_loop)
+        why_item = "the sequence handed to EventStream is not the cursor the reconnect resumes from"
+        if uses_cursor and item is not p.args[0]:
+            # the item was built into a local first: the cursor must not move between building and queueing it
+            ist = enclosing_stmt(item)
+            moved = {n for a in cursor_assigns_in_loop for n in cfg.nodes_of(a)}
+            for n in cfg.nodes_of(ist):
+                starts = [t for lab, t in cfg.succ[n] if lab not in ("exc", "cancel")]
+                if moved & cfg.reach(starts, blocked=cfg.nodes_of(st)):
+                    uses_cursor = False
+                    why_item = "the item is built before the cursor advances and queued after it: it carries the previous cursor"
         chk.ob("C17.R2", f"the queued item carries the cursor value (`sequence={ast.unparse(sk)}`)", uses_cursor, m=m, node=p, fn=c.reader, instance="item-sequence",
-               reason="the sequence handed to EventStream is not the cursor the reconnect resumes from")
+               reason=why_item)
         if uses_cursor:
             good_puts += 1
             put_nodes += cfg.nodes_of(st)
     chk.floor("C17.R2", "event hand-overs (queue.put of an item with a sequence) in the line loop", len(c.puts), 1)
+    # building the item into a local first: the constructor of a plain record class of the module (no __init__/__post_init__/__new__)
+    # applied to names and literals cannot raise, so that statement has no exceptional exit towards the reconnect handler
+    quiet_edges = []
+    for p in c.puts:
+        item = c.items[id(p)]
+        icls = c.m.classes.get(call_name(item) or "")
+        if item is not p.args[0] and icls is not None and not any(isinstance(f, FuncNode) and f.name in ("__init__", "__post_init__", "__new__") for f in icls.body) \
+                and all(isinstance(x, (ast.Name, ast.Constant)) for x in item.args + [k.value for k in item.keywords]) and isinstance(enclosing_stmt(item), ast.Assign):
+            quiet_edges += [(n, "exc") for n in cfg.nodes_of(enclosing_stmt(item))]
     for a in cursor_assigns_in_loop:
         br = _branch_of(c, a)
-        src_ok = bool(_name_set(a.value) - {"int", "str"}) and (_name_set(a.value) - {"int", "str"}) <= id_vars and not any(isinstance(x, ast.BinOp) for x in ast.walk(a.value))
+        # every value that can flow into the assignment through temporaries of the loop: a plain conversion of the id variable, or the cursor itself (kept)
+        srcs = _sources(a.value, loop_assigns, id_vars | {V})
+        src_ok = bool(srcs) and any(not (isinstance(x, ast.Name) and x.id == V) for x in srcs) and all(
+            (isinstance(x, ast.Name) and x.id == V) or (bool(_name_set(x) - {"int", "str"}) and (_name_set(x) - {"int", "str"}) <= id_vars and not any(isinstance(y, ast.BinOp) for y in ast.walk(x)))
+            for x in srcs)
         chk.ob("C17.R2", f"the cursor is assigned only from the parsed id of the frame (`{ast.unparse(a)[:60]}`)", src_ok, m=m, node=a, fn=c.reader, instance="cursor-source",
                reason=f"value is not a plain conversion of the id variable {sorted(id_vars)}")
         lost = False
         path: list = []
         for n in cfg.nodes_of(a):
             starts = [t for lab, t in cfg.succ[n] if lab not in ("exc", "cancel")]
-            r = cfg.reach(starts, blocked=put_nodes)
+            r = cfg.reach(starts, blocked=put_nodes, blocked_edges=quiet_edges)
             hit = [t for t in iter_nodes if t in r]
             if hit:
                 lost = True
@@ -931,6 +1003,21 @@ def run(chk) -> None:
     _fixture_selfcheck(chk)
 
 
+def _sources(e: ast.AST, assigns: list, stop: set[str], depth: int = 4) -> list[ast.AST]:
+    """The expressions whose value `e` can take, looking through names that are plain temporaries assigned in the loop
+    (every assignment to the temporary counts, whatever the path). Names in `stop` are kept."""
+    if isinstance(e, ast.Name) and e.id not in stop and depth > 0:
+        defs = [a.value for a in assigns if any(isinstance(t, ast.Name) and t.id == e.id for t in (a.targets if isinstance(a, ast.Assign) else [a.target]))]
+        if defs:
+            out: list[ast.AST] = []
+            for d in defs:
+                out += _sources(d, assigns, stop, depth - 1)
+            return out
+    if isinstance(e, ast.IfExp):
+        return _sources(e.body, assigns, stop, depth) + _sources(e.orelse, assigns, stop, depth)
+    return [e]
+
+
 def _derives_from(e: ast.AST, at: ast.AST, var: str, attr: str, fn: ast.AST) -> bool:
     """Every assignment to the name e inside fn derives (directly or through itself) from <var>.<attr>."""
     if isinstance(e, ast.Attribute):
@@ -1000,7 +1087,69 @@ def _fixture_selfcheck(chk) -> None:
 
 _C = "packages/llama-agents-client/src/llama_agents/client/client.py"
 _S = "packages/llama-agents-server/src/llama_agents/server/_api.py"
+
+
+def _multi(rel: str, edits: list[tuple[str, str]]) -> tuple[str, str]:
+    """(old, new) for a twin that needs several coordinated edits of one file: the anchor is the current text of the file."""
+    from ..index import repo_root
+
+    try:
+        src = (repo_root() / rel).read_text(encoding="utf-8")
+    except OSError:
+        return "\0file missing", ""
+    out = src
+    for a, b in edits:
+        if a not in out:
+            return "\0anchor missing: " + a[:40], ""
+        out = out.replace(a, b, 1)
+    return src, out
+
+
+_I = "                                    "  # indentation of the line loop's body
+_CLASSIFIER = (
+    _I + 'if stripped.startswith("id:"):\n' + _I + "    current_id = stripped[3:].strip()\n" + _I + 'elif stripped.startswith("data:"):\n'
+    + _I + "    data = stripped[5:].strip()\n" + _I + "    event = EventEnvelopeWithMetadata.model_validate_json(\n" + _I + "        data\n" + _I + "    )\n"
+    + _I + "    if current_id is not None:\n" + _I + "        try:\n" + _I + "            last_sequence = int(current_id)\n" + _I + "        except ValueError:\n" + _I + "            pass\n"
+    + _I + "    await queue.put(\n" + _I + "        _QueuedEvent(\n" + _I + "            sequence=last_sequence,\n" + _I + "            event=event,\n" + _I + "        )\n" + _I + "    )\n"
+    + _I + "    current_id = None\n"
+)
+_FIELD_CONSTS = ("_QueueItem = _QueuedEvent | _QueuedError | _QueuedDone\n", '_QueueItem = _QueuedEvent | _QueuedError | _QueuedDone\n\n_ID_FIELD = "id:"\n_DATA_FIELD = "data:"\n')
+
+
+def _guard_classifier(id_cut: str = "len(_ID_FIELD)", id_extra: str = "", stale_item: bool = False) -> str:
+    """The classifier as `continue` guards over module-level prefix constants, the id parsed into a temporary on every
+    branch (the shape an extracted-and-folded helper leaves) and the queued item built into a local."""
+    L = [
+        "if stripped.startswith(_ID_FIELD):",
+        f"    current_id = stripped[{id_cut}:].strip()",
+        *([f"    {id_extra}"] if id_extra else []),
+        "    continue",
+        "if not stripped.startswith(_DATA_FIELD):",
+        "    continue",
+        "data = stripped[len(_DATA_FIELD):].strip()",
+        "event = EventEnvelopeWithMetadata.model_validate_json(data)",
+        *(["queued = _QueuedEvent(sequence=last_sequence, event=event)"] if stale_item else []),
+        "if current_id is None:",
+        "    parsed = last_sequence",
+        "else:",
+        "    try:",
+        "        parsed = int(current_id)",
+        "    except ValueError:",
+        "        parsed = last_sequence",
+        "last_sequence = parsed",
+        *([] if stale_item else ["queued = _QueuedEvent(sequence=last_sequence, event=event)"]),
+        "await queue.put(queued)",
+        "current_id = None",
+    ]
+    return "".join(_I + x + "\n" for x in L)
+
+
 TWINS = [
+    # the classifier in guard style (prefix constants, `continue` guards, temporaries, named item)
+    Twin("benign: guard-style classifier, prefix constants, named item", _C, *_multi(_C, [_FIELD_CONSTS, (_CLASSIFIER, _guard_classifier())]), None),
+    Twin("guard-style: id branch cuts the other field's length", _C, *_multi(_C, [_FIELD_CONSTS, (_CLASSIFIER, _guard_classifier(id_cut="len(_DATA_FIELD)"))]), "C17.R1"),
+    Twin("guard-style: named item built before the cursor advances", _C, *_multi(_C, [_FIELD_CONSTS, (_CLASSIFIER, _guard_classifier(stale_item=True))]), "C17.R2"),
+    Twin("guard-style: cursor advanced in the id guard", _C, *_multi(_C, [_FIELD_CONSTS, (_CLASSIFIER, _guard_classifier(id_extra="last_sequence = int(current_id)"))]), "C17.R2"),
     # R1 framing
     Twin("slice one short", _C, "current_id = stripped[3:].strip()", "current_id = stripped[2:].strip()", "C17.R1"),
     Twin("server emits data before id", _S, 'yield f"id: {sequence}\\ndata: {payload}\\n\\n"', 'yield f"data: {payload}\\nid: {sequence}\\n\\n"', "C17.R1"),
